@@ -2,7 +2,7 @@
    harness ran on the real drivers and reports the indices of disagreeing cases. *)
 From Coq Require Import List String Bool Arith NArith.
 From Helm Require Import Common.Assoc Common.Strs Storage.Spec Storage.Mem Storage.Kube
-  Storage.Rmw Storage.MemNs Storage.KubeX.
+  Storage.Rmw Storage.MemNs Storage.KubeX Storage.Calls Storage.Base64 Storage.Codec Storage.Order.
 Import ListNotations.
 
 Inductive backend := BMem | BSecret | BConfigMap.
@@ -12,9 +12,19 @@ Inductive cop :=
 | COp (o : op)
 | CCorrupt (name : string) (ver : nat) (status : string)   (* Secret/ConfigMap only *)
 | CSetNs (ns : string)                                    (* memory only *)
-| CRmw (name : string) (ver : nat) (status : string).     (* Storage/Rmw.v: query, change status, update *)
+| CRmw (name : string) (ver : nat) (status : string)      (* Storage/Rmw.v: query, change status, update *)
+| CLast (name : string)                                   (* storage.go Last on top of the driver (Storage/Order.v) *)
+| CDeployed (name : string).                              (* storage.go Deployed *)
 
-Record case := mkCase { cbackend : backend; cops : list cop; cobs : list out }.
+(* a call sequence run on one of the three drivers, or an observation of the record codec
+   (harness c10_codec.go): the driver's base64 encoding applied to bytes / to a text, or the real
+   decodeRelease applied to a record text together with what gunzip and json.Unmarshal (third
+   party) gave for the bytes involved *)
+Inductive case :=
+| mkCase (cbackend : backend) (cops : list cop) (cobs : list out)
+| mkB64Enc (input : string) (observed : string)
+| mkB64Dec (input : string) (observed : option string)
+| mkCodec (data : string) (gunz : option string) (json_raw json_unz : option nat) (observed : option nat).
 
 Fixpoint all_some {A B} (f : A -> option B) (l : list A) : option (list B) :=
   match l with
@@ -28,33 +38,60 @@ Fixpoint all_some {A B} (f : A -> option B) (l : list A) : option (list B) :=
 Definition to_mop (c : cop) : option mop :=
   match c with
   | COp o => Some (MOp o) | CSetNs ns => Some (MSetNs ns) | CRmw n v st => Some (MRmw n v st)
-  | CCorrupt _ _ _ => None
+  | _ => None
   end.
 Definition to_xop (c : cop) : option xop :=
   match c with
   | COp o => Some (XOp o) | CCorrupt n v st => Some (XCorrupt n v st) | CRmw n v st => Some (XRmw n v st)
-  | CSetNs _ => None
+  | _ => None
   end.
-(* calls the flat reference map can answer: driver calls and read-modify-write *)
-Inductive sop := SOp (o : op) | SRmw (name : string) (ver : nat) (status : string).
+(* calls the flat reference map can answer: driver calls and read-modify-write
+   ([sop] of Storage/Calls.v) *)
 Definition to_sop (c : cop) : option sop :=
   match c with COp o => Some (SOp o) | CRmw n v st => Some (SRmw n v st) | _ => None end.
 
-Fixpoint spec_srun (s : spec) (xs : list sop) : list out :=
-  match xs with
+Definition spec_srun : spec -> list sop -> list out := srun spec_step.
+
+(* a run stops at a call the backend does not have (the observation then has more results
+   than the model and the case mismatches) *)
+Fixpoint crun {S : Type} (cstep : S -> cop -> option (S * out)) (s : S) (cs : list cop) : list out :=
+  match cs with
   | [] => []
-  | SOp o :: t => let '(s', r) := spec_step s o in r :: spec_srun s' t
-  | SRmw n v st :: t => let '(s', r) := rmw spec_step s n v st in r :: spec_srun s' t
+  | c :: t => match cstep s c with
+              | Some (s', r) => r :: crun cstep s' t
+              | None => []
+              end
   end.
 
+(* Last / Deployed read through the backend's Query and change nothing *)
+Definition with_reads {S : Type} (step : S -> op -> S * out) (base : S -> cop -> option (S * out))
+  (s : S) (c : cop) : option (S * out) :=
+  match c with
+  | CLast n => Some (s, storage_last step s n)
+  | CDeployed n => Some (s, storage_deployed step s n)
+  | _ => base s c
+  end.
+
+Definition mem_cstep : mem -> cop -> option (mem * out) :=
+  with_reads mem_step (fun m c => option_map (mem_mstep m) (to_mop c)).
+
 (* the codec instance used when running the model: a body is a release or undecodable *)
-Definition run_kube := kube_xrun (option rel) (fun r => Some r) (fun b => b) (fun _ => true) None.
+Definition run_kstep := kube_step (option rel) (fun r => Some r) (fun b => b) (fun _ => true).
+Definition run_kxstep := kube_xstep (option rel) (fun r => Some r) (fun b => b) (fun _ => true) None.
+Definition kube_cstep : kube (option rel) -> cop -> option (kube (option rel) * out) :=
+  with_reads run_kstep (fun k c => option_map (run_kxstep k) (to_xop c)).
+
+Definition spec_cstep : spec -> cop -> option (spec * out) :=
+  with_reads spec_step (fun s c => option_map (fun x => sstep spec_step s (norm_sop x)) (to_sop c)).
 
 Definition model_run (b : backend) (cs : list cop) : list out :=
   match b with
-  | BMem => match all_some to_mop cs with Some xs => mem_mrun mem_init xs | None => [] end
-  | _ => match all_some to_xop cs with Some xs => run_kube [] xs | None => [] end
+  | BMem => crun mem_cstep mem_init cs
+  | _ => crun kube_cstep [] cs
   end.
+
+Definition is_read (c : cop) : bool :=
+  match c with CLast _ | CDeployed _ => true | _ => false end.
 
 Fixpoint outs_agree (f : out -> out -> bool) (l1 l2 : list out) : bool :=
   match l1, l2 with
@@ -85,18 +122,52 @@ Fixpoint one_ns (seen : option string) (ops : list sop) : bool :=
   end.
 
 (* model against implementation: exact, label sets included (which results carry system
-   labels is part of what is compared; the harness replaces time-stamp values by "0" as
-   the model does).  Implementation against reference map, for sequences of driver calls
-   within the hypotheses of the refinement theorems: after dropping system labels. *)
-Definition case_ok (c : case) : bool :=
-  outs_agree out_equiv_b (model_run (cbackend c) (cops c)) (cobs c)
-  && match all_some to_sop (cops c) with
+   labels is part of what is compared; the harness replaces the wall-clock values of the
+   time-stamp labels by "0" as the model does).  Implementation against reference map, for
+   sequences of driver calls and read-modify-writes (C10_all_backends_refine_spec): the
+   reference map stores the user labels of what is written ([norm_sop]), results are compared
+   after the same projection ([norm_out]). *)
+Definition seq_ok (b : backend) (cs : list cop) (obs : list out) : bool :=
+  outs_agree out_equiv_b (model_run b cs) obs
+  && match all_some to_sop (filter (fun c => negb (is_read c)) cs) with
      | Some ops =>
-         if match cbackend c with BMem => one_ns None ops | _ => true end
-         then outs_agree out_spec_b (map strip_out (cobs c)) (map strip_out (spec_srun [] ops))
+         if match b with BMem => one_ns None ops | _ => true end
+         then outs_agree out_spec_b (map norm_out obs) (crun spec_cstep [] cs)
          else true
      | None => true
      end.
+
+Definition opt_string_eqb (a b : option string) : bool :=
+  match a, b with
+  | Some x, Some y => String.eqb x y
+  | None, None => true
+  | _, _ => false
+  end.
+
+Definition opt_nat_eqb (a b : option nat) : bool :=
+  match a, b with
+  | Some x, Some y => Nat.eqb x y
+  | None, None => true
+  | _, _ => false
+  end.
+
+(* decode_release with the observed third-party stages as its Section variables: gunzip
+   answers what Go's gzip reader answered for the decoded bytes, json.Unmarshal what it
+   answered for the decoded bytes / for the gunzipped bytes (a release is identified by its
+   revision) *)
+Definition codec_model (data : string) (gunz : option string) (json_raw json_unz : option nat) : option nat :=
+  let raw := b64_decode data in
+  let rel_of := option_map (fun v => mkRel "" "" v "" [] 0) in
+  let unjson := fun b => if opt_string_eqb (Some b) raw then rel_of json_raw else rel_of json_unz in
+  option_map rver (decode_release unjson (fun _ => gunz) data).
+
+Definition case_ok (c : case) : bool :=
+  match c with
+  | mkCase b cs obs => seq_ok b cs obs
+  | mkB64Enc input observed => String.eqb (b64_encode input) observed
+  | mkB64Dec input observed => opt_string_eqb (b64_decode input) observed
+  | mkCodec data gunz jr ju observed => opt_nat_eqb (codec_model data gunz jr ju) observed
+  end.
 
 Fixpoint mismatches_from (i : nat) (cs : list case) : list nat :=
   match cs with
